@@ -30,3 +30,7 @@ var _ = rts.NewSubjectID
 func verifRoundTripString(x *RelationTuple) (*RelationTuple, error) {
 	return (&RelationTuple{}).FromString(x.String())
 }
+
+func verifRoundTripStringSet(x *RelationTuple) (*RelationTuple, error) {
+	return (&RelationTuple{}).FromString(x.String())
+}
